@@ -322,15 +322,42 @@ impl World {
             self.deliver_forged(&f, RespClass::Foreign, as_target, note, None);
         }
         if inj.unrelated_pm > 0 && self.tape.chance(inj.unrelated_pm) {
-            self.inject_unrelated(&dg);
+            let t_arrive = clock::now() + self.sc.net.hop_delay_ns + u64::from(self.tape.skewed(2000)) * 1000;
+            self.inject_unrelated(&dg, t_arrive);
         }
     }
 
-    fn inject_unrelated(&mut self, probe: &[u8]) {
+    /// Background chatter (`InjectCfg::chatter_gap_ns`) for the time from now to the latest
+    /// end of the round that is starting: called when the receive socket is opened and after
+    /// every published round.
+    pub fn schedule_chatter(&mut self) {
+        let gap = self.sc.inject.chatter_gap_ns;
+        if gap == 0 {
+            return;
+        }
+        let t = &self.sc.tracer;
+        let until = clock::now() + t.max_round_ns + 2 * t.read_timeout_ns;
+        let v6 = t.v6;
+        // what the quoting kinds quote: the last probe sent, or a minimal stand-in
+        let quoted: Vec<u8> = self.wires.last().map_or_else(
+            || if v6 { let mut q = vec![0u8; 48]; q[0] = 0x60; q } else { let mut q = vec![0u8; 28]; q[0] = 0x45; q },
+            |w| w.bytes.clone(),
+        );
+        let mut at = self.chatter_until.max(clock::now());
+        let mut n = 0;
+        while at < until && n < 4096 {
+            at += gap / 2 + u64::from(self.tape.draw((gap / 1000).max(1) as u32)) * 1000;
+            self.inject_unrelated(&quoted, at);
+            self.counters.add("inject.chatter", 1);
+            n += 1;
+        }
+        self.chatter_until = at;
+    }
+
+    fn inject_unrelated(&mut self, probe: &[u8], t_arrive: u64) {
         let host = self.host_addr();
         let v6 = probe[0] >> 4 == 6;
         let from = crate::scenario::router_addr(v6, 3, 0, 0);
-        let t_arrive = clock::now() + self.sc.net.hop_delay_ns + u64::from(self.tape.skewed(2000)) * 1000;
         let which = self.tape.pick(5);
         let (bytes, src) = match (from, host) {
             (IpAddr::V4(f), IpAddr::V4(h)) => {
